@@ -9,6 +9,7 @@ closed-form value of the continuous part (generator-known structure).
 
 import copy
 import itertools
+import os
 import random
 
 from .. import canon
@@ -452,6 +453,7 @@ def _run_enum(m, table, mode, viol, unsound, stats, sample=None):
         key = tuple(sorted(nset))
         if key in seen:
             viol.append({"clause": "binary assignment yielded twice", "detail": d})
+            break  # an enumeration that repeats itself need not end
         seen.add(key)
         if prev is not None and obj < prev - TOL:
             viol.append({"clause": "objectives not in non-decreasing order", "detail": dict(d, prev=prev)})
@@ -705,6 +707,30 @@ def _w3(seg, viol, stats):
         SIM.yields.clear()
 
 
+def _guard(viol, mode, fn, *a):
+    """Run one unit of work; an exception that comes out of aldy's own code (the enumeration, a model
+    helper, a stage function) is a violation - the statement has no clause under which solving a well-formed
+    model ends in an exception - while an error of the harness stays a harness error."""
+    import traceback
+
+    try:
+        return fn(*a)
+    except Exception as ex:
+        if type(ex).__name__ in ("HarnessError",):
+            raise
+        files = [f.filename for f in traceback.extract_tb(ex.__traceback__)]
+        inner = [f for f in files if "/aldysim/" not in f or f.endswith("seams.py")]
+        in_aldy = any(os.sep + "aldy" + os.sep in f and "/aldysim/" not in f for f in files)
+        last_own = max((i for i, f in enumerate(files) if "/aldysim/checks/" in f), default=-1)
+        # raised below aldy's frames (aldy called from the check, the error surfaced inside / beneath aldy)
+        if in_aldy and any(os.sep + "aldy" + os.sep in f and "/aldysim/" not in f for f in files[last_own + 1:]):
+            viol.append({"clause": "solving a model built through the interface ended in an exception",
+                         "detail": {"mode": mode, "type": type(ex).__name__, "msg": str(ex)[:200],
+                                    "where": [os.path.basename(f) for f in inner[-4:]]}})
+            return None
+        raise
+
+
 def run_segment(seg):
     viol, unsound = [], []
     stats = {"models": 0, "fired": {}, "fault_points": [], "vertices": set(), "ties": 0, "truncated": 0,
@@ -728,7 +754,7 @@ def run_segment(seg):
                 stats["ties"] += 1
         # --- fault-free reference configuration: plain CBC
         SIM.reset({"max_solves": 4000, "max_wall": 90.0, "monitor": True})
-        r = _run_enum(m, table, "plain", viol, unsound, stats, sample)
+        r = _guard(viol, "plain", _run_enum, m, table, "plain", viol, unsound, stats, sample)
         runs += 1
         if r is None:
             continue
@@ -738,12 +764,12 @@ def run_segment(seg):
         # --- adversarial vertex choice
         for a in seg["advs"]:
             SIM.reset({"max_solves": 4000, "max_wall": 90.0, "adversary": a, "monitor": True})
-            _run_enum(m, table, "adversary", viol, unsound, stats)
+            _guard(viol, "adversary", _run_enum, m, table, "adversary", viol, unsound, stats)
             merge_fired()
             runs += 1
         # --- integrality jitter: the yielded names must not change
         SIM.reset({"max_solves": 4000, "max_wall": 90.0, "jitter": seg["jitter"], "monitor": True})
-        r = _run_enum(m, table, "jitter", viol, unsound, stats)
+        r = _guard(viol, "jitter", _run_enum, m, table, "jitter", viol, unsound, stats)
         merge_fired()
         runs += 1
         if r and [y[2] for y in r[0]] != [y[2] for y in plain]:
@@ -753,7 +779,7 @@ def run_segment(seg):
         for k in range(min(nsolves, 12)):
             for kind in FAULT_KINDS:
                 SIM.reset({"max_solves": 4000, "max_wall": 90.0, "faults": [{"at": k, "kind": kind, "seed": k}], "monitor": False})
-                r = _run_enum(m, table, f"fault:{kind}", viol, unsound, stats)
+                r = _guard(viol, f"fault:{kind}", _run_enum, m, table, f"fault:{kind}", viol, unsound, stats)
                 merge_fired()
                 runs += 1
                 stats["fault_points"].append((kind, min(k, 6)))
@@ -771,20 +797,15 @@ def run_segment(seg):
     # enumerations alive at once
     ok_models = [m for m in seg["models"] if len(set(m["bins"])) == len(m["bins"])]
     for m in ok_models[:4]:
-        try:
-            runs += _two_phase(m, viol, stats)
-        except Exception as ex:
-            if type(ex).__name__ == "AldyException":
-                raise
-            raise
+        runs += _guard(viol, "two_phase", _two_phase, m, viol, stats) or 0
     for m1, m2 in zip(ok_models[0::2], ok_models[1::2]):
-        runs += _interleaved(m1, m2, viol, stats)
+        runs += _guard(viol, "interleaved", _interleaved, m1, m2, viol, stats) or 0
     if seg.get("w2"):
         SIM.reset({"max_solves": 4000, "max_wall": 90.0, "monitor": False})
-        _w2(viol, stats)
+        _guard(viol, "w2", _w2, viol, stats)
         runs += 1
     if seg.get("w3"):
-        _w3(seg, viol, stats)
+        _guard(viol, "w3", _w3, seg, viol, stats)
         merge_fired()
         runs += 3
     stats["vertices"] = sorted(stats["vertices"])
